@@ -295,6 +295,7 @@ theorem C11_only_input_delivers (st : St) (op : Routing.Op) (h : ∀ f, op ≠ .
   | input f => exact absurd rfl (h f)
   | agents ns => simp [step]
   | attach id n l => simp only [step]; split <;> simp
+  | attachOne id n l => simp only [step]; split <;> simp
   | send s m => simp only [step]; split <;> simp [isDelivery]
   | burst srcs =>
     simp only [step]
@@ -307,7 +308,11 @@ theorem C11_only_input_delivers (st : St) (op : Routing.Op) (h : ∀ f, op ≠ .
         intro e he
         simp only [burstEvents, List.mem_append] at he
         rcases he with he | he
-        · split at he <;> simp at he; subst he; rfl
+        · split at he
+          · split at he
+            · simp at he; subst he; rfl
+            · simp at he
+          · simp at he
         · exact ih (k + 1) e he
     · simp
   | detach s => cases s <;> simp [step]
@@ -316,6 +321,68 @@ theorem C11_only_input_delivers (st : St) (op : Routing.Op) (h : ∀ f, op ≠ .
     split
     · exact hstop _ (by simp [isDelivery])
     · simp
+
+/-! ### outgoing frames: agents, downlinks and send-only clients (`AttachClient::OneWay`) -/
+
+/-- **Every message a source writes leaves the socket exactly once, unchanged**: while the task runs, a message
+written by an open source whose registration kind reads that sort of message (`regKind`/`readerAccepts`: downlinks
+and send-only clients are registered as `Client` and send requests, agents as `Server` and send notifications) is
+written to the socket as exactly one text frame, the encoder's frame for that message; nothing else happens. -/
+theorem C11_outgoing_frame_leaves (st : St) (s : Src) (m : Msg) (hr : st.running = true)
+    (ha : srcAlive st s = true) (hk : readerAccepts (regKind s) m = true) :
+    step st (.send s m) = (st, [.peer (encode m)]) := by
+  simp [step, hr, ha, hk]
+
+/-- … and the peer reads that frame as the message that was written (part 1). -/
+theorem C11_outgoing_frame_read_back (m : Msg) (hwf : BodyWF m) : peel (encode m) = rawOf m :=
+  C11_read_write m hwf
+
+/-- **Send-only clients**: after `AttachClient::OneWay` succeeded on a running task, every request (in practice
+`@command`) the client writes leaves the socket exactly once as the encoder's frame — whatever else happened before
+on the socket — until the client is detached or the task stops. -/
+theorem C11_one_way_command_leaves (ops : List Routing.Op) (id : Nat) (n l : Str) (m : Msg)
+    (hr : (reach ops).running = true) (hm : isRequest m.kind = true) :
+    (step (step (reach ops) (.attachOne id n l)).1 (.send (.ow id) m)).2 = [.peer (encode m)] := by
+  generalize reach ops = st at *
+  have h1 : (step st (.attachOne id n l)).1 = { st with ows := st.ows ++ [⟨id, n, l, true⟩] } := by
+    simp [step, hr]
+  rw [h1]
+  generalize hst' : ({ st with ows := st.ows ++ [⟨id, n, l, true⟩] } : St) = st'
+  have hr' : st'.running = true := by subst hst'; exact hr
+  have ha : srcAlive st' (.ow id) = true := by subst hst'; simp [srcAlive, owAlive]
+  rw [C11_outgoing_frame_leaves st' (.ow id) m hr' ha (by simp [regKind, readerAccepts, hm])]
+
+/-- positions (offset by `k`) at which source `s` occurs in a burst -/
+def occurrences : List Src → Src → Nat → List Nat
+  | [], _, _ => []
+  | s' :: rest, s, k => (if s' = s then [k] else []) ++ occurrences rest s (k + 1)
+
+def framesFrom (s : Src) (evs : List Ev) : List Str :=
+  evs.filterMap fun e => match e with
+    | .peerFrom s' f => if s' = s then some f else none
+    | _ => none
+
+/-- **In order, interleaved with everything else**: in a burst (several sources writing before the task runs), the
+frames that leave the socket for an open send-only client are exactly its commands, one per write, in the order it
+wrote them. -/
+theorem C11_one_way_burst_in_order (st : St) (id : Nat) (o : Ow) (srcs : List Src) (k : Nat)
+    (ha : owAlive st id = true) (hf : (st.ows.find? fun x => x.id == id) = some o) :
+    framesFrom (.ow id) (burstEvents st srcs k) =
+      (occurrences srcs (.ow id) k).map fun j => encode ⟨.command, o.node, o.lane, ('m' :: (toString j).toList)⟩ := by
+  induction srcs generalizing k with
+  | nil => simp [burstEvents, framesFrom, occurrences]
+  | cons s rest ih =>
+    have ih' := ih (k + 1)
+    unfold framesFrom at ih' ⊢
+    simp only [burstEvents, occurrences, List.filterMap_append, List.map_append, ih']
+    congr 1
+    by_cases e : s = .ow id
+    · subst e
+      simp [srcAlive, ha, burstMsg, hf, regKind, readerAccepts, isRequest]
+    · simp only [e, if_false, List.map_nil]
+      cases hs : srcAlive st s <;> simp
+      cases hb : burstMsg st s k <;> simp
+      intro _; exact e
 
 /-- **Content unchanged**: the body a downlink receives is the body that was on the wire (absent when empty for
 `unlinked`), for every notification kind. (FC11-2, the inverted test in `interpret_envelope`, fixed by fffb427; the
@@ -349,6 +416,10 @@ theorem C11_written_notification_content (m : Msg) (hk : isRequest m.kind = fals
 
 example : (step (reach [.attach 0 "/n".toList "l".toList]) (.input "@unlinked(node:\"/n\",lane:l)@laneNotFound".toList)).2 =
     [.toDl 0 .unlinked "/n".toList "l".toList (some "@laneNotFound".toList)] := by decide
+
+example : (step (reach [.attach 0 "/n".toList "l".toList, .attachOne 0 "/r".toList "two words".toList])
+    (.send (.ow 0) ⟨.command, "/r".toList, "two words".toList, "1".toList⟩)).2 =
+    [.peer "@command(node:\"/r\",lane:\"two words\") 1".toList] := by decide
 
 /-! non-vacuity: two downlinks on the same node but different lanes, one detached; an agent resolved on demand -/
 
